@@ -1266,7 +1266,7 @@ def filter_declaration(language: Language, instance: pydsdl.Any) -> str:
             return language.create_bitset_decl(instance.capacity)
         return language.create_array_decl(filter_declaration(language, instance.element_type), instance.capacity)
 
-    return filter_full_reference_name(language, instance)
+    return "::" + filter_full_reference_name(language, instance)
 
 
 @template_language_filter(__name__)
